@@ -22,10 +22,13 @@ def _pi():
     return PI
 
 
-def new_angle(name, rng='pm_pi', unit='rad', var=None, lazy=None, fv=None):
-    """declare an angle atom. rng: 'pm_pi' (-pi,pi], '0_pi' [0,pi], 'pm_halfpi' [-pi/2,pi/2], 'free'"""
+def new_angle(name, rng='pm_pi', unit='rad', var=None, lazy=None, fv=None, lo=None, hi=None):
+    """declare an angle atom. rng: 'pm_pi' (-pi,pi], '0_pi' [0,pi], 'pm_halfpi' [-pi/2,pi/2], 'free'.
+    lo/hi: tighter declared bounds (in the atom's unit); they are also imposed on the (cos, sin) pair"""
     v = var if var is not None else z3.Real(name)
-    CTX.atoms[name] = dict(var=v, rng=rng, unit=unit, lazy=lazy, linked=False)
+    k = 1.0 if unit == 'rad' else math.pi / 180.0
+    CTX.atoms[name] = dict(var=v, rng=rng, unit=unit, lazy=lazy, linked=False,
+                           lo=None if lo is None else lo * k, hi=None if hi is None else hi * k)
     x = SR(v, Lin({name: PiPoly({0: F(1)})}, PiPoly()), None, fv)
     if unit == 'rad':
         pi = _pi()
@@ -84,6 +87,8 @@ def unit(name, D):
         CTX.recipes[str(s)] = ('sin_atom', name, md)
         CTX.defs.append(c * c + s * s == 1)
         rng = at['rng']
+        if name not in ('@pi',) and at['rng'] != 'meta':
+            _pool_nonneg(name, md, c, s)
         if name == '@pi':
             if md == 1:
                 CTX.defs += [c == -1, s == 0]
@@ -108,6 +113,18 @@ def unit(name, D):
                 if md > 2 and rng in ('pm_pi', '0_pi', 'pm_halfpi'):
                     # |atom/md| <= pi/md: cos >= cos(pi/md)
                     CTX.defs.append(c >= lift(math.cos(math.pi / md) - 1e-12))
+            # declared bounds of the angle, imposed on the pair at this granularity (monotone pieces of sin / cos)
+            full = {'pm_pi': (-math.pi, math.pi), '0_pi': (0.0, math.pi), 'pm_halfpi': (-math.pi / 2, math.pi / 2)}.get(rng)
+            if full is not None and (at.get('lo') is not None or at.get('hi') is not None):
+                a = (full[0] if at.get('lo') is None else max(full[0], at['lo'])) / md
+                b = (full[1] if at.get('hi') is None else min(full[1], at['hi'])) / md
+                d = 1e-12
+                if -math.pi / 2 <= a and b <= math.pi / 2:
+                    CTX.defs += [s >= lift(math.sin(a) - d), s <= lift(math.sin(b) + d)]
+                if 0.0 <= a and b <= math.pi:
+                    CTX.defs += [c <= lift(math.cos(a) + d), c >= lift(math.cos(b) - d)]
+                if -math.pi <= a and b <= 0.0:
+                    CTX.defs += [c >= lift(math.cos(a) - d), c <= lift(math.cos(b) + d)]
             c1, s1 = cs_multiple(c, s, md)
             if rng == '0_pi':
                 CTX.defs.append(s1 >= 0)
@@ -127,18 +144,63 @@ def unit(name, D):
     return cs_multiple(c, s, md // D)
 
 
+def _pool_nonneg(name, md, c, s):
+    at = CTX.atoms[name]
+    rng = at['rng']
+    if len(CTX.pool) > 14:
+        return
+    if md >= 2 and rng in ('pm_pi', '0_pi', 'pm_halfpi'):
+        CTX.pool.append(SR(c))
+    if (md >= 1 and rng == '0_pi') or (md >= 2 and rng == '0_pi'):
+        CTX.pool.append(SR(s))
+    if md == 1 and rng == 'pm_halfpi':
+        CTX.pool.append(SR(c))
+
+
 def _link_lazy(name, c, s):
     at = CTX.atoms[name]
     kind, args = at['lazy']
     if kind == 'atan2':
         ty, tx = args
-        r = CTX.newvar('hyp', ('hyp', tx, ty))
-        CTX.defs += [r >= 0, r * r == tx * tx + ty * ty, tx == r * c, ty == r * s,
-                     z3.Implies(r == 0, z3.And(c == 1, s == 0))]
+        # the hypotenuse is the same symbol as np.sqrt(x^2 + y^2) / np.linalg.norm([x, y]) computed by the code
+        rr = core.sym_sqrt(SR(tx * tx + ty * ty))
+        r = lift(rr)
+        CTX.defs += [tx == r * c, ty == r * s, z3.Implies(r == 0, z3.And(c == 1, s == 0))]
     elif kind == 'asin':
         CTX.defs += [s == args[0], c >= 0]
     elif kind == 'acos':
         CTX.defs += [c == args[0], s >= 0]
+
+
+def materialise(names):
+    """create the (cos, sin) pair (and with it the sign / range / defining links) of lazy atoms whose value is compared"""
+    for n in names:
+        at = CTX.atoms.get(n)
+        if at is not None and at['lazy'] is not None and not at['linked'] and at['rng'] in ('pm_pi', '0_pi', 'pm_halfpi'):
+            unit(n, 1)
+
+
+def need_value(names):
+    """injectivity axioms between the value symbols of angle atoms (see core._angle_value_used)"""
+    fam = ('pm_pi', '0_pi', 'pm_halfpi')
+    new = [n for n in names if n in CTX.atoms and not CTX.atoms[n].get('valued') and CTX.atoms[n]['rng'] in fam
+           and CTX.atoms[n]['unit'] == 'rad']
+    if not new:
+        return
+    for n in new:
+        CTX.atoms[n]['valued'] = True
+    others = [n for n, at in CTX.atoms.items() if at['rng'] in fam and at['unit'] == 'rad' and n != '@pi']
+    done = CTX.atoms.setdefault('@inj', dict(var=None, rng='meta', unit='rad', lazy=None, linked=False, pairs=set()))['pairs']
+    for a in new:
+        for b in others:
+            if a == b or (a, b) in done or (b, a) in done:
+                continue
+            done.add((a, b))
+            ca, sa = unit(a, 1)
+            cb, sb = unit(b, 1)
+            va, vb = CTX.atoms[a]['var'], CTX.atoms[b]['var']
+            CTX.defs.append(z3.Implies(z3.And(ca == cb, sa == sb), va == vb))
+            CTX.events.append(('angle-injectivity', f'{a}~{b}'))
 
 
 def _ensure_pi_atom():
@@ -250,6 +312,8 @@ def _lazy(kind, rng, args, fv=None):
         return hit[0]
     out = _lazy_new(kind, rng, args, fv)
     CTX.sqrt_cache[key] = (out, args)     # same function of the same arguments is the same angle
+    if rng == '0_pi' and len(CTX.pool) < 8:
+        CTX.pool.append(out)              # non-negative angle value: candidate for sqrt(angle^2 ...) rewrites
     return out
 
 
